@@ -262,6 +262,9 @@ class SimpleDictDocument(DictDocument):
                             newval = ncls.get_deserialization_instance(ctx)
                             ninst.append(newval)
                             frequencies[cfreq_key][pkey] += 1
+                            # the new element has to be validated even if no
+                            # key ever addresses it.
+                            frequencies[cfreq_key + (pkey, ncls, 0)]
 
                         if nidx > len(ninst):
                             raise ValidationError(orig_k,
@@ -297,6 +300,10 @@ class SimpleDictDocument(DictDocument):
                 ctype_info = ncls.get_flat_type_info(ncls)
 
             frequencies[cfreq_key][member.path[-1]] += len(value)
+            if member.can_be_empty and len(value) == 1:
+                # "key=empty" created an object: its own (so far empty) entry
+                # makes soft validation look at its mandatory members.
+                frequencies[cfreq_key + (member.path[-1], member.type, 0)]
 
             member_attrs = self.get_cls_attrs(member.type)
             if member_attrs.max_occurs > 1:
